@@ -537,6 +537,40 @@ GLOBAL_LETS = [
 ]
 
 
+CONTAINER_CASTS = [
+    # (program body inside main's try, expected output): `as` between containers of any and containers of concrete types is
+    # validated at run time like a cast from any itself
+    ('let l: [any] = "[1, \\"two\\", 3]".parse_json() as [any]; let n = l as [int]; println(n[1] + 1);', None),
+    ('let l: [any] = "[1, 2, 3]".parse_json() as [any]; let n = l as [int]; println(n[1] + 1);', "3\n"),
+    ('let o: { a: any } = "{\\"a\\": \\"s\\"}".parse_json() as { a: any }; let p = o as { a: int }; println(p.a + 1);', None),
+    ('let o: { a: any } = "{\\"a\\": 4}".parse_json() as { a: any }; let p = o as { a: int }; println(p.a + 1);', "5\n"),
+    ('let ll: [[any]] = "[[1], [\\"x\\"]]".parse_json() as [[any]]; let nn = ll as [[int]]; println(nn[1][0] + 1);', None),
+    ('let q: ?any = "{\\"k\\": \\"s\\"}".parse_json() as ?any; let w = q as ?{ k: int }; println(w.unwrap().k + 1);', None),
+]
+
+
+def run_container_casts(ctx):
+    progs = [f'fn main() {{ try {{ {body} }} catch e {{ println("caught", e.message.len() > 0); }} }}\n' for body, _ in CONTAINER_CASTS]
+    go = core.go_lines("run", [f"(run (main {G.hexs(src)}))" for src in progs], timeout=300)
+    for (body, want), src, g in zip(CONTAINER_CASTS, progs, go):
+        rep = {"kind": "program", "source": src}
+        ctx.count(case_key=src, nontrivial=True)
+        if g.startswith(("CRASH", "HANG")):
+            ctx.violation(dict(rep, go=g[:300]), f"container cast: a value crossing the type boundary crashed the host: {g[:120]}")
+            continue
+        parts = dict(p.split("=", 1) for p in g.split(" | "))
+        if not parts.get("A", "").startswith("ACCEPT"):
+            ctx.broken.append(f"correspondence:container-cast-rejected: {src[:120]} :: {parts.get('A', '')[:80]}")
+            continue
+        for be in ("VM", "TREE"):
+            kind, out, kv = outcome(parts[be])
+            exp = want if want is not None else "caught true\n"
+            if kind != "OK" or out != exp:
+                ctx.violation(dict(rep, backend=be, go=parts[be][:400]),
+                              f"{be}: cast between containers (`{body[:70]}`): {kind} out={out[:100]!r}, expected {exp!r}"
+                              + ("" if want is not None else " (a non-conforming element must raise a catchable cast error)"))
+
+
 def run_global_lets(ctx):
     """An annotated GLOBAL `let` whose initializer has type any (an object literal indexed by a computed key is a constant
     expression) is a dynamic-to-static crossing like a local one: conforming values are admitted (a T into ?T wrapped),
@@ -594,6 +628,7 @@ def run(ctx):
     check_isolation(ctx)
     pstats = check_programs(ctx, gen_programs(ctx, 1200 if quick else 20000))
     run_global_lets(ctx)
+    run_container_casts(ctx)
     ctx.coverage["program_cases"] = pstats
     hstats = check_host(ctx, gen_host(ctx, 500 if quick else 8000))
     ctx.coverage["host_cases"] = hstats
